@@ -22,6 +22,7 @@ inductive Dml where
   | ins (t : String) (id v : Int)
   | upd (t : String) (id v : Int)
   | del (t : String) (id : Int)
+  | alt (t : String)            -- ALTER TABLE t ADD COLUMN …: invisible in the (id, v) reading of the table
 deriving Repr, DecidableEq
 
 inductive Op where
@@ -50,6 +51,7 @@ def applyDml (s : DbState) : Dml → DbState
   | .ins t id v => s.map (fun p => if p.1 == t then (p.1, p.2 ++ [(id, v)]) else p)
   | .upd t id v => s.map (fun p => if p.1 == t then (p.1, p.2.map (fun r => if r.1 == id then (id, v) else r)) else p)
   | .del t id => s.map (fun p => if p.1 == t then (p.1, p.2.filter (fun r => r.1 != id)) else p)
+  | .alt _ => s
 
 def applyDmls (s : DbState) (ds : List Dml) : DbState := ds.foldl applyDml s
 
@@ -138,6 +140,7 @@ def parseDml : List String → Option Dml
     | some a, some b => some (.upd t a b) | _, _ => none
   | ["del", t, id] => match id.toInt? with
     | some a => some (.del t a) | none => none
+  | ["alt", t] => some (.alt t)
   | _ => none
 
 def allSome {α : Type} (xs : List (Option α)) : Option (List α) :=
